@@ -249,6 +249,16 @@ impl<'tcx> Dumper<'tcx> {
                     }
                 }
                 if !done {
+                    let (prov, _off) = ptr.prov_and_relative_offset();
+                    if let Some(rustc_middle::mir::interpret::GlobalAlloc::Static(did)) =
+                        tcx.try_get_global_alloc(prov.alloc_id())
+                    {
+                        let p = self.path(did);
+                        self.j.kv_str("static", &p);
+                        done = true;
+                    }
+                }
+                if !done {
                     self.j.kv_raw("ptr", "true");
                 }
             }
